@@ -19,6 +19,7 @@ from . import symcommon as sc
 from .c02 import oracle_classes, exact_ops, apply
 
 TOL = 1.0e-5
+LAST = {}  # expected partition / eps of the most recent whole-list case (for replay files)
 
 
 def gen_cases(ck, sgs, allstrata):
@@ -204,20 +205,24 @@ def constraints_case(ck, sg, st, SymmetryConstraints):
             owner.append(c)
     order = list(range(len(pts)))
     ck.rng.shuffle(order)
+    # the tolerance is an argument: also use a wide one with noise between the default and the given eps
+    eps, amp = (None, 1e-7) if ck.rng.random() < 0.6 else (1.0e-3, 1.2e-4)
     pos = []
     for i in order:
         p = pts[i]
         n = [ck.rng.randrange(-1, 2) for _ in range(3)]
-        noise = [ck.rng.choice([-1, 0, 1]) * 1e-7 for _ in range(3)]
+        noise = [ck.rng.choice([-1, 0, 1]) * amp for _ in range(3)]
         pos.append([float(p[j]) + n[j] + noise[j] for j in range(3)])
     own = [owner[i] for i in order]
-    scs = SymmetryConstraints(sg, pos)
+    scs = SymmetryConstraints(sg, pos) if eps is None else SymmetryConstraints(sg, pos, eps=eps)
+    TOLc = TOL if eps is None else eps
     # expected partition: positions grouped by owning orbit, generator = first listed
     exp = {}
     for i, o in enumerate(own):
         exp.setdefault(o, []).append(i)
     expected = {v[0]: sorted(v) for v in exp.values()}
     got = {g: sorted(v) for g, v in scs.coremap.items()}
+    LAST["expected"], LAST["eps"] = {str(k): v for k, v in expected.items()}, eps
     if got != expected:
         return "coremap %r, orbit partition is %r" % (got, expected), pos
     if len(scs.corepos) != len(expected):
@@ -229,9 +234,67 @@ def constraints_case(ck, sg, st, SymmetryConstraints):
             got_p = [sc.eval_linear(sc.parse_linear(fm[c]), vals) for c in "xyz"]
         except (ValueError, KeyError) as e:
             return "poseqns[%d] = %r cannot be evaluated with pospars (%r)" % (i, fm, e), pos
-        if sc.pdist(got_p, pos[i]) > TOL:
-            return "poseqns[%d] = %r at pospars gives %r, position is %r" % (i, fm, [float(g) for g in got_p], pos[i]), pos
+        if sc.pdist(got_p, pos[i]) > TOLc:
+            return "poseqns[%d] = %r at pospars gives %r, position is %r (eps=%r)" % (i, fm, [float(g) for g in got_p], pos[i], eps), pos
+    # custom parameter symbols: the translated formulas must denote the same positions
+    prob = custom_symbols_check(scs, pos, TOLc)
+    if prob:
+        return prob + " (eps=%r)" % (eps,), pos
     return None, pos
+
+
+def custom_symbols_check(scs, pos, tol):
+    syms = scs.posparSymbols()
+    custom = ["pA%d" % i for i in range(len(syms))]
+    if not custom:
+        return None
+    cvals = {c: Fraction(float(v)).limit_denominator(10 ** 12) for c, v in zip(custom, scs.posparValues())}
+    for name, fn in (("positionFormulas", scs.positionFormulas), ("positionFormulasPruned", scs.positionFormulasPruned)):
+        fms = fn(custom)
+        if len(fms) != len(pos):
+            return "%s(custom symbols) returned %d entries for %d positions" % (name, len(fms), len(pos))
+        for i, fm in enumerate(fms):
+            for c, ci in zip("xyz", range(3)):
+                if c not in fm:
+                    if name == "positionFormulas":
+                        return "%s(custom)[%d] lacks coordinate %s" % (name, i, c)
+                    continue  # pruned: constant coordinates are dropped
+                try:
+                    val = sc.eval_linear(sc.parse_linear(fm[c]), cvals)
+                except (ValueError, KeyError) as e:
+                    return "%s(custom)[%d][%s] = %r cannot be evaluated with the custom symbols (%r)" % (name, i, c, fm[c], e)
+                w = float(val - Fraction(pos[i][ci]).limit_denominator(10 ** 12)) % 1.0
+                if min(w, 1 - w) > tol:
+                    return "%s(custom)[%d][%s] = %r gives %r, position is %r" % (name, i, c, fm[c], float(val), pos[i][ci])
+    return None
+
+
+def directed_symbols_case(ck, sg, st, SymmetryConstraints):
+    """Listing whose generators sit at indices i and 10*i+d (symbol names that are prefixes of each other):
+    one point, then 9..16 points of a general orbit, then a further orbit."""
+    if len(sg.symop_list) < 12 or len(st) < 2:
+        return None, None
+    gen_pos = [strata.frac(p) for p in st[0]["xyz"]]
+    opos, _ = oracle_classes(sg, gen_pos, (Fraction(0),) * 3)
+    nb = ck.rng.randrange(9, min(17, len(opos)) + 1) if len(opos) >= 9 else None
+    if nb is None:
+        return None, None
+    A = [v + Fraction(1, 7) for v in gen_pos]  # another general site, single listed point
+    B = opos[:nb]
+    c = ck.rng.randrange(len(st))
+    C0 = [strata.frac(p) for p in st[c]["xyz"]]
+    C0 = [C0[0] + Fraction(1, 11), C0[1], C0[2]] if c == 0 else C0
+    Cpos, _ = oracle_classes(sg, C0, (Fraction(0),) * 3)
+    pts = [A] + list(B) + list(Cpos[: min(len(Cpos), 6)])
+    pos = [[float(v) for v in p] for p in pts]
+    scs = SymmetryConstraints(sg, pos)
+    exp = {0: [0], 1: list(range(1, 1 + nb)), 1 + nb: list(range(1 + nb, len(pts)))}
+    LAST["expected"], LAST["eps"] = {str(k): v for k, v in exp.items()}, None
+    got = {g: sorted(v) for g, v in scs.coremap.items()}
+    if got != exp:
+        return "coremap %r, orbit partition is %r" % (got, exp), pos
+    prob = custom_symbols_check(scs, pos, TOL)
+    return prob, pos
 
 
 def run(ck):
@@ -307,7 +370,24 @@ def run(ck):
                 prob, pos = "raised %r" % (e,), None
             if prob:
                 ck.fail("constraints:%s" % sg.number, "SymmetryConstraints(%s #%s): %s" % (sg.short_name, sg.number, prob),
-                        {"kind": "input", "setting": sg.number, "positions": pos, "detail": prob, "stream": "constraints"})
+                        {"kind": "input", "setting": sg.number, "positions": pos, "detail": prob, "stream": "constraints",
+                         "expected_coremap": LAST.get("expected"), "eps": LAST.get("eps")})
+    ndir = 0
+    for sg in sgs.SpaceGroupList:
+        st = allstrata.get(sg.number)
+        if not st or (ck.tier == "quick" and ck.rng.random() < 0.7):
+            continue
+        try:
+            prob, pos = directed_symbols_case(ck, sg, st, SymmetryConstraints)
+        except Exception as e:
+            prob, pos = "raised %r" % (e,), None
+        if pos is not None:
+            ndir += 1
+        if prob:
+            ck.fail("constraints-symbols:%s" % sg.number, "SymmetryConstraints(%s #%s) with custom symbols: %s" % (sg.short_name, sg.number, prob),
+                    {"kind": "input", "setting": sg.number, "positions": pos, "detail": prob, "stream": "constraints",
+                     "expected_coremap": LAST.get("expected"), "eps": LAST.get("eps")})
+    ncon += ndir
     ck.coverage["evaluations"] += ncon
     ck.coverage["distinct_nontrivial"] = len(distinct) + ncon
     ck.coverage["rule"] = ("all settings x strata representatives (<=6 per setting quick) x variants %s: exact stabiliser, exact dimension, formulas at reported "
@@ -338,10 +418,20 @@ def replay(path):
         tier = "quick"
 
     if r.get("stream") == "constraints":
-        sc_ = SymmetryConstraints(sg, r["positions"])
-        print("coremap:", sc_.coremap)
-        print("(compare with the orbit partition recorded in the replay detail)")
-        return 1
+        eps = r.get("eps")
+        try:
+            sc_ = SymmetryConstraints(sg, r["positions"]) if eps is None else SymmetryConstraints(sg, r["positions"], eps=eps)
+        except Exception as e:
+            print("raised", repr(e))
+            return 1
+        got = {str(g): sorted(v) for g, v in sc_.coremap.items()}
+        print("coremap:", got)
+        print("expected orbit partition:", r.get("expected_coremap"))
+        if r.get("expected_coremap") is not None and got != r["expected_coremap"]:
+            return 1
+        prob = custom_symbols_check(sc_, r["positions"], TOL if eps is None else eps)
+        print("custom symbols:", prob)
+        return 1 if prob else 0
     x = [Fraction(v) for v in r["xyz"]]
     x0 = [Fraction(v) for v in r["special_site"]]
     prob, _, _ = site_checks(CK, sg, r["variant"], x0, x, GeneratorSite)
